@@ -55,8 +55,15 @@ def loop_case(draw):
             "shadow_mod": draw(st.integers(2, 3)), "global_x": draw(st.booleans()), "reps": draw(st.integers(1, 2))}
 
 
+@st.composite
+def fnglobal_case(draw):
+    """names that are functions first and become globals later: the same Id nodes are read before and after (third tier of the lookup order)"""
+    steps = draw(st.lists(st.sampled_from(["probe", "probe", "lam", "g1", "g2", "loop", "fresh", "attr"]), min_size=3, max_size=9))
+    return {"kind": "fnglobal", "steps": steps, "v": draw(st.integers(1, 90)), "at": draw(st.integers(0, 2)), "nonfunc_first": draw(st.booleans())}
+
+
 def strategy():
-    return st.one_of(fn_case(), fn_case(), lam_case(), rec_case(), loop_case())
+    return st.one_of(fn_case(), fn_case(), lam_case(), rec_case(), loop_case(), fnglobal_case())
 
 
 def build(c):
@@ -139,6 +146,32 @@ def build(c):
         L.append("def r(k, flag) {\n  if (k %% %d == flag) { var t = k * 10; rec(t) }\n  if (k == %d) { eval(\"var u = 77\") }\n  var u2 = k\n  if (k > 0) { r(k - 1, flag) }\n  rec(u2)\n  rec(n)\n}" % (c["mod"], c["inject_at"]))
         for d in c["calls"]:
             L.append("r(%d, %d)" % (d, c["flag"] % c["mod"]))
+    elif c["kind"] == "fnglobal":
+        v = c["v"]
+        L.append("def show_zz(v) { if (is_type(v, \"Function\")) { return \"fn\" }; return to_string(v) }")
+        L.append("def h1() { 41 }\ndef h2() { 42 }")
+        L.append("def probe() { rec(show_zz(h1)); rec(show_zz(h2)) }")
+        L.append("var lamp = fun() { rec(show_zz(h1)); rec(show_zz(h2)) }")
+        L.append("var ob = Dynamic_Object(); ob.f = fun() { rec(show_zz(h2)) }")
+        if c["nonfunc_first"]:
+            L.append("probe(); lamp()")
+        nfresh = 0
+        for i, stp in enumerate(c["steps"]):
+            if stp == "probe":
+                L.append("probe()")
+            elif stp == "lam":
+                L.append("lamp()")
+            elif stp == "attr":
+                L.append("ob.f()")
+            elif stp == "g1":
+                L.append("global h1 = %d" % (v + i))
+            elif stp == "g2":
+                L.append("global h2 = %d" % (2 * v + i))
+            elif stp == "loop":
+                L.append("for (var i = 0; i < 3; ++i) { rec(show_zz(h2)); rec(show_zz(h1)); if (i == %d) { eval(\"global h%d = %d\") } }" % (c["at"], 1 + i % 2, 300 + v + i))
+            else:
+                nfresh += 1
+                L.append("def probe_%d() { rec(show_zz(h1)); rec(show_zz(h2)) }\nprobe_%d()" % (nfresh, nfresh))
     else:
         if c["global_x"]:
             L.append("global x = 1")
